@@ -351,45 +351,56 @@ def skipWs : List Char → List Char
   | [] => []
   | c :: cs => if isWs c then skipWs cs else c :: cs
 
-def hex4 (a b c d : Char) : Option Nat :=
-  match hexVal a, hexVal b, hexVal c, hexVal d with
-  | some x, some y, some z, some w => some (((x * 16 + y) * 16 + z) * 16 + w)
-  | _, _, _, _ => none
+/-- The single-character escapes of `json.decoder.BACKSLASH`. -/
+def simpleEsc (c : Char) : Option Char :=
+  if c = '"' then some '"' else if c = '\\' then some '\\' else if c = '/' then some '/'
+  else if c = 'b' then some '\x08' else if c = 'f' then some '\x0c' else if c = 'n' then some '\n'
+  else if c = 'r' then some '\r' else if c = 't' then some '\t' else none
 
-/-- `json.decoder.scanstring` (strict) after the opening quote; `acc` is reversed. -/
-def pStr : List Char → List Char → PR (List Char)
-  | [], _ => .bad
-  | c :: cs, acc =>
+/-- Scanner state inside a string literal. -/
+inductive SMode where
+  | norm                                   -- ordinary characters
+  | esc                                    -- just after a backslash
+  | u (k : Nat) (v : Nat) (hi : Option Nat) -- k hex digits of a \uXXXX read, value v; hi = pending high surrogate
+  | hi1 (h : Nat)                          -- after a high surrogate: a backslash must follow
+  | hi2 (h : Nat)                          -- … and then a `u`
+  deriving Repr
+
+/-- `json.decoder.scanstring` (strict; the C scanner's strict hex digits) after the opening quote, one
+    character per step; `acc` is the text so far, reversed. A lone surrogate (which Python keeps in
+    the resulting `str`) is outside the modelled domain. -/
+def pStrM : SMode → List Char → List Char → PR (List Char)
+  | _, [], _ => .bad
+  | .norm, c :: cs, acc =>
     if c = '"' then .ok acc.reverse cs
-    else if c = '\\' then
-      match cs with
-      | '"' :: r => pStr r ('"' :: acc)
-      | '\\' :: r => pStr r ('\\' :: acc)
-      | '/' :: r => pStr r ('/' :: acc)
-      | 'b' :: r => pStr r ('\x08' :: acc)
-      | 'f' :: r => pStr r ('\x0c' :: acc)
-      | 'n' :: r => pStr r ('\n' :: acc)
-      | 'r' :: r => pStr r ('\r' :: acc)
-      | 't' :: r => pStr r ('\t' :: acc)
-      | 'u' :: a :: b :: c1 :: d :: r =>
-        match hex4 a b c1 d with
-        | none => .bad
-        | some n =>
-          if 0xD800 ≤ n && n ≤ 0xDBFF then
-            match r with
-            | '\\' :: 'u' :: a2 :: b2 :: c2 :: d2 :: r2 =>
-              match hex4 a2 b2 c2 d2 with
-              | none => .bad
-              | some m =>
-                if 0xDC00 ≤ m && m ≤ 0xDFFF then
-                  pStr r2 (Char.ofNat (0x10000 + (n - 0xD800) * 1024 + (m - 0xDC00)) :: acc)
-                else .outside       -- lone high surrogate kept by Python
-            | _ => .outside
-          else if 0xDC00 ≤ n && n ≤ 0xDFFF then .outside   -- lone low surrogate
-          else pStr r (Char.ofNat n :: acc)
-      | _ => .bad
+    else if c = '\\' then pStrM .esc cs acc
     else if c.toNat < 32 then .bad
-    else pStr cs (c :: acc)
+    else pStrM .norm cs (c :: acc)
+  | .esc, c :: cs, acc =>
+    if c = 'u' then pStrM (.u 0 0 none) cs acc
+    else match simpleEsc c with
+      | some e => pStrM .norm cs (e :: acc)
+      | none => .bad
+  | .u k v hi, c :: cs, acc =>
+    match hexVal c with
+    | none => .bad
+    | some h =>
+      if k < 3 then pStrM (.u (k + 1) (v * 16 + h) hi) cs acc
+      else
+        let n := v * 16 + h
+        match hi with
+        | none =>
+          if 0xD800 ≤ n && n ≤ 0xDBFF then pStrM (.hi1 n) cs acc
+          else if 0xDC00 ≤ n && n ≤ 0xDFFF then .outside
+          else pStrM .norm cs (Char.ofNat n :: acc)
+        | some h0 =>
+          if 0xDC00 ≤ n && n ≤ 0xDFFF then
+            pStrM .norm cs (Char.ofNat (0x10000 + (h0 - 0xD800) * 1024 + (n - 0xDC00)) :: acc)
+          else .outside
+  | .hi1 h0, c :: cs, acc => if c = '\\' then pStrM (.hi2 h0) cs acc else .outside
+  | .hi2 h0, c :: cs, acc => if c = 'u' then pStrM (.u 0 0 (some h0)) cs acc else .outside
+
+def pStr (cs acc : List Char) : PR (List Char) := pStrM .norm cs acc
 
 /-- Consume decimal digits, accumulating. -/
 def readNat (a : Nat) : List Char → Nat × List Char
@@ -423,62 +434,73 @@ def pNumber (neg : Bool) (cs : List Char) : PR Val :=
   | .bad => .bad
   | .outside => .outside
 
+/-- A literal keyword after its first character. -/
+def pLit (lit : List Char) (v : Val) (cs : List Char) : PR Val :=
+  if lit.isPrefixOf cs then .ok v (cs.drop lit.length) else .bad
+
 mutual
 /-- `scan_once` at the head of the input (no leading whitespace). -/
 def pValue : Nat → List Char → PR Val
   | 0, _ => .outside
-  | f + 1, cs =>
-    match cs with
-    | '"' :: r =>
+  | _ + 1, [] => .bad
+  | f + 1, c :: r =>
+    if c.isDigit then pNumber false (c :: r)
+    else if c = '"' then
       match pStr r [] with
       | .ok s rest => .ok (.str (String.ofList s)) rest
       | .bad => .bad
       | .outside => .outside
-    | '{' :: r =>
+    else if c = '{' then
       match skipWs r with
-      | '}' :: rest => .ok (.dict []) rest
-      | '"' :: r' =>
-        match pMember f r' with
-        | .ok kvs rest => .ok (.dict (rebuildDict kvs)) rest
-        | .bad => .bad
-        | .outside => .outside
-      | _ => .bad
-    | '[' :: r =>
-      match skipWs r with
-      | ']' :: rest => .ok (.list []) rest
-      | r' =>
-        match pValue f r' with
-        | .ok v rest =>
-          match pElems f rest with
-          | .ok vs rest' => .ok (.list (v :: vs)) rest'
+      | [] => .bad
+      | c' :: r' =>
+        if c' = '}' then .ok (.dict []) r'
+        else if c' = '"' then
+          match pMember f r' with
+          | .ok kvs rest => .ok (.dict (rebuildDict kvs)) rest
           | .bad => .bad
           | .outside => .outside
-        | .bad => .bad
-        | .outside => .outside
-    | 'n' :: 'u' :: 'l' :: 'l' :: rest => .ok .none rest
-    | 't' :: 'r' :: 'u' :: 'e' :: rest => .ok (.bool true) rest
-    | 'f' :: 'a' :: 'l' :: 's' :: 'e' :: rest => .ok (.bool false) rest
-    | 'N' :: 'a' :: 'N' :: _ => .outside
-    | 'I' :: 'n' :: 'f' :: 'i' :: 'n' :: 'i' :: 't' :: 'y' :: _ => .outside
-    | '-' :: 'I' :: 'n' :: 'f' :: 'i' :: 'n' :: 'i' :: 't' :: 'y' :: _ => .outside
-    | '-' :: r => pNumber true r
-    | _ => pNumber false cs
+        else .bad
+    else if c = '[' then
+      match skipWs r with
+      | [] => .bad
+      | c' :: r' =>
+        if c' = ']' then .ok (.list []) r'
+        else
+          match pValue f (c' :: r') with
+          | .ok v rest =>
+            match pElems f rest with
+            | .ok vs rest' => .ok (.list (v :: vs)) rest'
+            | .bad => .bad
+            | .outside => .outside
+          | .bad => .bad
+          | .outside => .outside
+    else if c = 'n' then pLit ['u', 'l', 'l'] .none r
+    else if c = 't' then pLit ['r', 'u', 'e'] (.bool true) r
+    else if c = 'f' then pLit ['a', 'l', 's', 'e'] (.bool false) r
+    else if c = '-' then
+      if ['I', 'n', 'f', 'i', 'n', 'i', 't', 'y'].isPrefixOf r then .outside else pNumber true r
+    else if c = 'N' then (if ['a', 'N'].isPrefixOf r then .outside else .bad)
+    else if c = 'I' then (if ['n', 'f', 'i', 'n', 'i', 't', 'y'].isPrefixOf r then .outside else .bad)
+    else .bad
 /-- after an array element: `,` value … or `]` -/
 def pElems : Nat → List Char → PR (List Val)
   | 0, _ => .outside
   | f + 1, cs =>
     match skipWs cs with
-    | ']' :: rest => .ok [] rest
-    | ',' :: r =>
-      match pValue f (skipWs r) with
-      | .ok v rest =>
-        match pElems f rest with
-        | .ok vs rest' => .ok (v :: vs) rest'
+    | [] => .bad
+    | c :: r =>
+      if c = ']' then .ok [] r
+      else if c = ',' then
+        match pValue f (skipWs r) with
+        | .ok v rest =>
+          match pElems f rest with
+          | .ok vs rest' => .ok (v :: vs) rest'
+          | .bad => .bad
+          | .outside => .outside
         | .bad => .bad
         | .outside => .outside
-      | .bad => .bad
-      | .outside => .outside
-    | _ => .bad
+      else .bad
 /-- one member after its opening quote: key `:` value, then the remaining members -/
 def pMember : Nat → List Char → PR (List (Val × Val))
   | 0, _ => .outside
@@ -486,16 +508,18 @@ def pMember : Nat → List Char → PR (List (Val × Val))
     match pStr cs [] with
     | .ok k r =>
       match skipWs r with
-      | ':' :: r' =>
-        match pValue f (skipWs r') with
-        | .ok v rest =>
-          match pMembers f rest with
-          | .ok kvs rest' => .ok ((.str (String.ofList k), v) :: kvs) rest'
+      | [] => .bad
+      | c :: r' =>
+        if c = ':' then
+          match pValue f (skipWs r') with
+          | .ok v rest =>
+            match pMembers f rest with
+            | .ok kvs rest' => .ok ((.str (String.ofList k), v) :: kvs) rest'
+            | .bad => .bad
+            | .outside => .outside
           | .bad => .bad
           | .outside => .outside
-        | .bad => .bad
-        | .outside => .outside
-      | _ => .bad
+        else .bad
     | .bad => .bad
     | .outside => .outside
 /-- after a member: `,` `"` member … or `}` -/
@@ -503,12 +527,14 @@ def pMembers : Nat → List Char → PR (List (Val × Val))
   | 0, _ => .outside
   | f + 1, cs =>
     match skipWs cs with
-    | '}' :: rest => .ok [] rest
-    | ',' :: r =>
-      match skipWs r with
-      | '"' :: r' => pMember f r'
-      | _ => .bad
-    | _ => .bad
+    | [] => .bad
+    | c :: r =>
+      if c = '}' then .ok [] r
+      else if c = ',' then
+        match skipWs r with
+        | [] => .bad
+        | c' :: r' => if c' = '"' then pMember f r' else .bad
+      else .bad
 end
 
 /-- `json.loads(text)`: leading whitespace, one value, trailing whitespace only. -/
